@@ -10,6 +10,7 @@ CONSTANTS
   TrustScanOrder = FALSE
   SwapBeforeApply = FALSE
   BatchOnSharedCopy = FALSE
+  BuildTrustsStorage = FALSE
 INVARIANT TraceInv
 INVARIANT ObservedLogState
 INVARIANT ObservedReplicaStates
